@@ -510,7 +510,7 @@ def _one_invocation(job, j, inv, rootp: Path, base_text, base_inst, catalogue, m
     with shim:
         res = seams.run_cli(argv)
     obs = {"j": j, "flags": flags, "fault": fault_desc, "verdict": verdict, "why": why, "status": res["status"],
-           "exc": res["exc"], "io_fired": list(shim.fired), "argv": [a.replace(str(rundir), "<run>") for a in argv],
+           "exc": res["exc"], "io_fired": list(shim.fired), "argv": [a.replace(str(rundir), "<run>").replace(str(rootp), "<job>") for a in argv],
            "kind": inv["kind"], "stderr_tail": res["stderr"][-300:], "io_log_len": len(shim.log)}
     # direct verdict of the tool's validator (independent of the exit-status plumbing)
     if flags == "validate_only" or inv["kind"] == "validate":
